@@ -48,3 +48,40 @@ func probe() {
 	d, _ = b.Delete("a")
 	fmt.Println("dirty reopen: delete a:", d, "size", b.Size())
 }
+
+// faultProbe: the two store-fault findings on the real code (hx-c09 faultprobe).
+func faultProbe() {
+	ctl := &faultCtl{}
+	st := &faultStore{KVStore: mapdb.NewMapDB(), ctl: ctl}
+	m := newMap(st)
+	ctl.arm(0)
+	err := m.Set("a", []byte{1})
+	ctl.disarm()
+	h, _ := m.Has("a")
+	fmt.Println("Set(a,{1}) with the raw-key write refused:", err, "| Has(a)", h, "Size", m.Size())
+	fmt.Println("retried Set(a,{1}):", m.Set("a", []byte{1}), "| Size", m.Size())
+	_ = m.Stream(func(k string, v []byte) error { fmt.Printf("  stream %q %v\n", k, v); return nil })
+
+	ctl2 := &faultCtl{}
+	st2 := &faultStore{KVStore: mapdb.NewMapDB(), ctl: ctl2}
+	m = newMap(st2)
+	fmt.Println("Set(a,{1}); Commit:", m.Set("a", []byte{1}), m.Commit())
+	rootA := m.Root()
+	fmt.Println("Set(b,{2}):", m.Set("b", []byte{2}))
+	rootAB := m.Root()
+	ctl2.arm(1)
+	err = m.Commit()
+	ctl2.disarm()
+	fmt.Println("Commit with the 2nd write refused:", err, "| writes attempted", ctl2.writes)
+	m2 := newMap(st2)
+	r := m2.Root()
+	_, exA, errA := m2.Get("a")
+	_, exB, errB := m2.Get("b")
+	fmt.Println("second instance: restored", m2.WasRestoredFromStorage(), "Root is old", r == rootA, "is new", r == rootAB, "| Get(a)", exA, errA, "| Get(b)", exB, errB)
+	fmt.Println("retried Commit (no fault):", m.Commit())
+	m3 := newMap(st2)
+	r = m3.Root()
+	_, exA, errA = m3.Get("a")
+	_, exB, errB = m3.Get("b")
+	fmt.Println("second instance after the retried Commit: Root is new", r == rootAB, "| Get(a)", exA, errA, "| Get(b)", exB, errB)
+}
